@@ -3,6 +3,7 @@
 -/
 import PyProb.Driver.Bloom
 import PyProb.Model.QF
+import PyProb.Spec.QF
 
 namespace PyProb.Drv
 open PyProb
@@ -13,6 +14,15 @@ def qfObs (s : QF) : List (String × String) :=
   [("count", pyInt s.count), ("size", toString s.size), ("q", toString s.q),
    ("meta", bitsStr s.occ ++ "/" ++ bitsStr s.cont ++ "/" ++ bitsStr s.shift),
    ("rems", showNats s.rem),
+   ("layout", match s.getHashes with
+      | .ok hs =>
+          -- the canonical table of the stored set, from the independent specification
+          let sorted := hs.mergeSort (fun a b => decide (a ≤ b))
+          if (sorted.length : Int) < (s.size : Int) then
+            let l := Spec.layout s.q s.auto (Spec.pairs s.q sorted)
+            bitsStr l.occ ++ "/" ++ bitsStr l.cont ++ "/" ++ bitsStr l.shift ++ "/" ++ showNats l.rem
+          else "full"
+      | .error e => showErr e),
    ("hashes", match s.getHashes with
       | .ok hs => showNats (hs.mergeSort (fun a b => decide (a ≤ b)))
       | .error e => showErr e)]
